@@ -7,7 +7,8 @@ Invocation routes.
 * configuration: `GeneratorOutput(...)` (API and config-file route: the
   dataclass constructors run `__post_init__` → `validate`) versus
   `config.output.update(**params)` (CLI flags: `objects.update` =
-  `setattr` along the dotted key, then only `self.format.validate()`).
+  `setattr` along the dotted key, then `self.format.validate()` and
+  `self.validate()`, i.e. the same two validations the constructors run).
 -/
 import XsdataModel.Codegen.Basic
 import XsdataModel.Tables
@@ -169,10 +170,11 @@ def setField (o : GenOutput) (d : Dest) (v : OptVal) : Option GenOutput :=
   | .includeHeader, OptVal.bool x => some { o with includeHeader := x }
   | _, _ => none
 
-/-- `GeneratorOutput.update(**kwargs)`: set every key, then `self.format.validate()` only -/
+/-- `GeneratorOutput.update(**kwargs)`: set every key, then `self.format.validate()`
+and `self.validate()` (the latter since 4e80ca2) -/
 def update (o : GenOutput) (params : List (Dest × OptVal)) : Option GenOutput :=
   (params.foldlM (fun o kv => setField o kv.1 kv.2) o).map
-    (fun o => { o with format := formatValidate o.format })
+    (fun o => outputValidate { o with format := formatValidate o.format })
 
 /-- `cli.generate`: `params = {k: v for k, v in kwargs.items() if v is not None}`;
 `config = GeneratorConfig.read(config_file)`; `config.output.update(**params)` -/
